@@ -27,7 +27,9 @@ CHECKS = {
             "All 1+1 two-sided histories over a collision alphabet (same-path create/create, edit/edit, edit/delete, "
             "file-vs-folder) in every interleaving, plus every placement of an unreadable (corrupt) version: at quiet states "
             "every version a user wrote and no user destroyed exists in some file, conflict losers are kept as .conflicted, "
-            "a corrupt version never appears on the other side.", NOTE_E1, "5/C02"),
+            "a corrupt version never appears on the other side. A 'replace' family (one side removes or moves a file away and puts "
+            "another object at its name while the other side edits, moves or deletes either file; id- and path-addressed flavours) "
+            "is explored in every interleaving; a lost version is reported with the engine call site that removed its last copy.", NOTE_E1, "5/C02"),
     "C03": ("seqx", TECH_E1,
             "All one-sided histories (<=2 ops; 3 ops deviation-bounded in thorough) in both directions from three base trees, "
             "every interleaving: exact mirror at quiet state, no effective engine write on the origin side after any step, "
@@ -35,19 +37,21 @@ CHECKS = {
     "C04": ("seqx", TECH_E1,
             "All ancestry-disjoint 1+1 pairs of operations from base B2 in every interleaving (2+1 deviation-bounded in "
             "thorough), plus 3-4 operation chains around a folder rename (edit child, rename folder, follow-up on the child at "
-            "its new path, move it back) against an unrelated operation on the other side, explored with <=1 (2) deviations "
+            "its new path, move it back) and two rename cycles (files swapping names through a temporary name) against an unrelated operation on the other side, explored with <=1 (2) deviations "
             "from three default schedules (prompt, lazy remote intake, lazy local intake): both quiet trees equal a reference "
             "three-way merge computed on a dict tree.", NOTE_E1, "5/C04"),
     "C05": ("seqx", TECH_E1,
             "Conflict shape x content pair x 10 resolver behaviours, both user operations first, then every interleaving of "
             "engine steps: outcome table of the statement, resolver call count and arguments, and a singleton terminal "
-            "observation per job (schedule independence).", NOTE_E1, "5/C05"),
+            "observation per job (schedule independence). 'Late edit' jobs (a side is edited again while the first attempt is "
+            "unfinished) check on every resolver call that each handle yields the bytes that side holds (or held at its last "
+            "intake), recording whether the engine's recorded hash was current.", NOTE_E1, "5/C05"),
     "C06": ("seqx", "exhaustive enumeration of stop points x restart modes on explored executions of the real engine",
             "For every step boundary of every base execution (prompt and users-first schedules of one-sided and disjoint "
             "histories on a DictStorage) the engine is dropped, the users finish their scripts while it is down, and a new engine "
             "is started over the same storage in three modes (intact, cursor removed, cursor rejected); after quiescence: "
             "convergence, no loss, no new artefact, no spurious transfer (intact) / every created or modified object present on "
-            "both sides (cursor lost). Judged only when the undisturbed run passes (differential gating).",
+            "both sides (cursor lost); case-only renames on case-insensitive flavours included. Judged only when the undisturbed run passes (differential gating).",
             NOTE_E1, "5/C06"),
     "C07": ("seqx", "exhaustive crash-point enumeration (every storage write, every engine provider write) on explored executions",
             "Within every base execution each storage create/update/delete is taken as a crash instant (die before it) and each "
@@ -75,22 +79,26 @@ CHECKS = {
     "C11": ("apix+seqx", TECH_E2 + "; invariant monitor on the engine exploration",
             "All sequences of raw state-level operations (events for both id styles, split, discard, conflict, finish, "
             "side-state move, field assignments) to depth 2 on the full and depth 3 on a reduced alphabet on a bare SyncState, "
-            "plus the same index/pending-set invariants after every transition of an engine exploration.",
+            "plus the same index/pending-set invariants after every transition of an engine exploration - on the live state and, for a "
+            "quarter of the jobs, on a SyncState rebuilt from a copy of the storage (what a restart would load).",
             NOTE_E1, "5/C11"),
     "C12": ("seqx", TECH_E1 + " with a confinement monitor",
             "Accounts with content outside both roots (another folder, a prefix-sibling folder, a file at the account root); "
             "histories mixing inside operations, outside operations and moves across the boundary in every interleaving; after "
             "every engine step the outside snapshot of both accounts is unchanged, every engine create/mkdir/rename target lies "
             "inside its root on a component boundary, outside-only bytes never appear on the other side; inside trees converge; "
-            "a custom translate declining 'skip*' names is honoured.", NOTE_E1, "5/C12"),
+            "a custom translate declining 'skip*' names is honoured, and an object renamed to a declined name keeps its peer copy.", NOTE_E1, "5/C12"),
     "C14": ("seqx", "exhaustive enumeration of event-stream manglings on executions of the real engine, differential oracle",
             "For every history (<=2 ops, users first) and each side, every mangling of the first event delivery - every subset "
             "duplicated (adjacent and late), every permutation of <=4 events on id-stable sides, path fields dropped, id-less and "
             "unknown-id events injected, a full walk queued at three positions, per-event batching - must end in the same quiet "
-            "trees as the unmangled run, without new artefacts or spurious transfers.", NOTE_E1, "5/C14"),
+            "trees as the unmangled run, without new artefacts or spurious transfers. Two-phase 'stale replay' histories: every "
+            "non-empty subset of the events of an earlier, fully processed phase is delivered again (with and without the content "
+            "hash it described) before or after the next batch.", NOTE_E1, "5/C14"),
     "C13": ("enumx", TECH_E4,
             "Every string up to length 5 (6 thorough) over an 8-symbol alphabet for the unary laws, all folder/relative-part "
-            "pairs from strings up to length 3 (4) for subpath, prefix-sibling, replace and match laws, four helper "
+            "pairs from strings up to length 3 (4) for subpath, prefix-sibling, replace and match laws (folder arguments also in the "
+            "trailing-separator and alternate-separator spellings normalize_path_separators documents), four helper "
             "configurations, and the translate round trip for three case-mode pairs.",
             "Trusted: the law statements in vmc/props/c13.py; the random-long-path clause is not claimed.", "5/C13"),
     "C15": ("thrx+seqx", TECH_E3 + "; lock-ownership monitor on explored engine executions",
@@ -102,8 +110,9 @@ CHECKS = {
             "Trusted: scheduling points at lock and wait operations are sufficient given (a); single attribute/dict operations "
             "are atomic under the GIL; MockProvider.", "5/C15"),
     "C16": ("apix", TECH_E2,
-            "Every call sequence up to depth 3 (4 thorough; filesystem 2/3) over create/mkdir/rename/upload/delete with "
-            "colliding names and four size classes on four mock flavours and the filesystem provider, compared after every "
+            "Every call sequence up to depth 3 (4 thorough) over create/mkdir/rename/upload/delete with "
+            "colliding names and four size classes on four mock flavours and the filesystem provider (plus depth 5/6 on a narrow "
+            "alphabet with two >2 KiB contents differing only in the middle; hash-cache contents are part of the state), compared after every "
             "call with a reference tree: result class, info/exists/listdir/download agreement, id stability, hash law, event "
             "report; plus identity-on-connect, single-use guard and watchdog event conversion.",
             "Trusted: the reference tree in vmc/props/c16.py (contract as documented by test_provider.py); asynchronous inotify "
@@ -112,8 +121,9 @@ CHECKS = {
             "Under a virtual clock that moves only through explicit tick actions and the engine's own sleeps, every order of user "
             "operation, intake step, sync step and ticks up to depth 7 (9 thorough) is executed for two ageing values and five "
             "prioritise functions; at every pick the entry handed to the sync routine must be eligible and minimal by (priority, "
-            "age), and every engine write must come at least the ageing interval after the last notification for that object "
-            "unless its priority is negative; plus a starvation scenario.", NOTE_E1, "5/C17"),
+            "age), a negative priority must be justified by prioritize() of a path the entry has now, and every engine write must "
+            "come at least the ageing interval after the last notification for that object unless its priority is negative; plus a "
+            "starvation scenario.", NOTE_E1, "5/C17"),
     "C20": ("seqx", TECH_E1,
             "SmartCloudSync with application calls (request, un-request, list) as explorer actions next to user operations and "
             "engine steps, every interleaving: no local file that is not local-origin, requested or predicate-matched after any "
